@@ -300,7 +300,23 @@ def array_readers(ctx, f, cfg, R="C02.expiry-filter/who-reads-array"):
                 pls += [a["pl"] for a in t["args"] if a.get("pl")]
             if any(pj.endswith("LeapArray.array") for pl in pls for pj in pl["p"]):
                 touch.add(p)
-    extra = sorted(p for p in touch if not any(p.endswith(k) or p == k for k in ARRAY_TOUCHERS) and "::test" not in p)
+    def listed(p):
+        return any(p.endswith(k) or p == k for k in ARRAY_TOUCHERS)
+
+    def only_from_listed(p, depth=0):
+        """a private helper (or closure) that is used by listed readers only is part of them (it is inlined into their view)"""
+        from . import inline
+        b = f.bodies.get(p)
+        if b is None or depth > 3:
+            return False
+        if b.kind == "Closure":
+            return bool(b.root) and (listed(b.root) or only_from_listed(b.root, depth + 1))
+        if not inline.default_policy(f, b, b):
+            return False
+        cs = {cb.path for cb, bb, t in f.callers_of(p)}
+        cs = {(f.bodies[c].root or c) if f.bodies[c].kind == "Closure" else c for c in cs}
+        return bool(cs) and all(listed(c) or only_from_listed(c, depth + 1) for c in cs)
+    extra = sorted(p for p in touch if not listed(p) and "::test" not in p and not only_from_listed(p))
     ctx.instance(R, "LeapArray.array", {"bodies_touching_the_ring": len(touch), "outside_the_filtered_readers": extra}, "only the listed LeapArray methods", not extra and len(touch) >= 6, cfg)
     for p in extra:
         ctx.violation(R.split("/")[0], "%s|%s" % (R, p.replace("core::", "", 1)), "%s reads LeapArray.array directly, bypassing the expiry filter: buckets older than the window are reported" % p, f.bodies[p].loc(), config=cfg)
